@@ -220,6 +220,8 @@ pub fn cases(tier: Tier) -> Vec<CCase> {
         ("(1 << 15) >> 15", 1), ("(256 * 255) >> 8", 255), ("65535 / 256", 255), ("(1 << 16) >> 16", 1), ("(1 << 30) >> 29", 2), ("0x10000 > 1", 1), ("0x10000 == 0", 0), ("!0x10000", 0),
         ("0x10000 ? 1 : 2", 1), ("0x10000 && 1", 1), ("0 || 0x10000", 1), ("(0x12345 >> 8) & 0xff", 0x23), ("0x12345 / 0x100", 0x123), ("(2 << 14) == 32768", 1), ("-32768 < 32767", 1), ("40000 > 30000", 1),
         ("2 || 0", 1), ("5 || 0", 1), ("0 || 5", 1), ("5 && 3", 1), ("(2 || 0) * 3", 3), ("!5", 0), ("!!5", 1), ("-(1 << 8) < 0", 1), ("~0 < 0", 1), ("(~0) >> 31", -1), ("1 ? 0x7eaddead : 5", 0x7eaddead), ("0 ? 5 : 0x7eaddead", 0x7eaddead),
+        ("-7 / 2", -3), ("(2 - 5) / 2", -1), ("-1 / 2", 0), ("-8 / 4", -2), ("-9 / 4", -2), ("7 / -2", -3), ("-7 / -2", 3), ("-1 / 256", 0), ("-257 / 256", -1),
+        ("(2 >= 2) ? 5 : 6", 5), ("(4 > 4) ? 1 : 0", 0), ("3 <= 3 && 1", 1), ("(3 < 3) || 0", 0), ("1 && 2", 1), ("(6 & 2) && (6 & 4)", 1), ("4 && 3", 1), ("8 || 0", 1),
     ] {
         for pos in [Pos::ConstShort, Pos::StmtAssign, Pos::StmtIf] {
             v.push(CCase { pos, e: E::Sizeof(format!("__TEXT__{}__DECL__", t), val), text: Some(t.to_string()) });
